@@ -13,10 +13,9 @@ func (*constRange) Exit(node *Node) {
 		if n.Operator == ".." {
 			if min, ok := n.Left.(*IntegerNode); ok {
 				if max, ok := n.Right.(*IntegerNode); ok {
-					size := max.Value - min.Value + 1
 					// In case the max < min, patch empty slice
 					// as max must be greater than equal to min.
-					if size < 1 {
+					if max.Value < min.Value {
 						Patch(node, &ConstantNode{
 							Value: make([]int, 0),
 						})
@@ -24,9 +23,12 @@ func (*constRange) Exit(node *Node) {
 					}
 					// In this case array is too big. Skip generation,
 					// and wait for memory budget detection on runtime.
-					if size > 1e6 {
+					// (max-min+1 can overflow for bounds far apart, so the
+					// span is computed unsigned.)
+					if uint64(max.Value)-uint64(min.Value) >= 1e6 {
 						return
 					}
+					size := max.Value - min.Value + 1
 					value := make([]int, size)
 					for i := range value {
 						value[i] = min.Value + i
